@@ -68,11 +68,64 @@ def check_flatteners(ctx):
                 f"its text never reaches the cue payload (e.g. ruby base text is dropped)")
 
 
+def seq_end_by_interpretation(ctx, q):
+  """The statements of a writer's from_model between the computation of the ISD sequence and finish(), interpreted
+  (rules/minieval.py) with a four-entry sample sequence whose second entry lies less than a millisecond after the first: the cue
+  context receives add_isd(isd_k, t_k, t_k+1) for every k in order, the last one with an open end.  Decides the clause for any
+  loop form (enumerate with look-ahead, zip with a shifted list, an index loop).  Returns False when the statements leave the
+  interpreted subset."""
+  from ..rules.minieval import MiniEval, Node
+  ix = ctx.ix
+  f = ix.func(q)
+  seq_st = None
+  for st in f.node.body:
+    if isinstance(st, ast.Assign) and len(st.targets) == 1 and isinstance(st.targets[0], ast.Name) and "generate_isd_sequence" in unparse(st.value):
+      seq_st = st
+  if seq_st is None:
+    return False
+  seq = seq_st.targets[0].id
+  i0 = f.node.body.index(seq_st)
+  stmts = []
+  for st in f.node.body[i0 + 1:]:
+    if any(isinstance(c, ast.Call) and isinstance(c.func, ast.Attribute) and c.func.attr == "finish" for c in ast.walk(st)) or isinstance(st, ast.Return):
+      break
+    stmts.append(st)
+  adds = [c for st in stmts for c in ast.walk(st) if isinstance(c, ast.Call) and isinstance(c.func, ast.Attribute) and c.func.attr == "add_isd"]
+  if not adds or not isinstance(adds[0].func.value, ast.Name):
+    return False
+  ctxvar = adds[0].func.value.id
+  times = [Fraction(0), Fraction(1, 2500), Fraction(1), Fraction(5, 2)]
+  isds = [Node("ISD", f"isd{k}") for k in range(len(times))]
+  sample = [(t, d) for t, d in zip(times, isds)]
+  cue_ctx = Node("Ctx", "cue_context", filters=[])
+  me = MiniEval(ix, opaque_calls={"progress_callback", "_isd_progress"})
+  env = {seq: sample, ctxvar: cue_ctx}
+  for p_ in f.params:
+    env.setdefault(p_, None)
+  try:
+    me.block(stmts, env, f, 0)
+  except NotConst:
+    return False
+  except Raised:
+    ctx.bad("SEQ-end", f"{q}|add_isd-interval", ctx.where(f.module, adds[0]), "interpreted on a sample sequence, the loop that feeds add_isd raises")
+    return True
+  ctx.unit(f.module)
+  got = [(a[0].name if isinstance(a[0], Node) else a[0], a[1], a[2]) for (n_, m_, a) in me.trace if n_ is cue_ctx and m_ == "add_isd" and len(a) == 3]
+  want = [(isds[k].name, times[k], times[k + 1] if k + 1 < len(times) else None) for k in range(len(times))]
+  ctx.check(got == want, "SEQ-end", f"{q}|add_isd-interval", ctx.where(f.module, adds[0]),
+            f"interpreted on a sample sequence: add_isd(isd_k, t_k, t_k+1) for k = 0..{len(times) - 1}, the last end open",
+            f"interpreted on a sample sequence of {len(times)} entries, the writer calls add_isd with {[(g[0], str(g[1]), str(g[2])) for g in got]}; expected every entry once, in order, each ending at the "
+            f"time of the next entry and the last one open: cues would overlap, leave gaps, end early or be missing")
+  return True
+
+
 def check_seq_end(ctx):
   """end of cue i = begin of entry i+1; last one open."""
   ix = ctx.ix
   ce = ConstEval(ix, symbolic_ok=False)
   for q in ("ttconv.srt.writer:from_model", "ttconv.vtt.writer:from_model"):
+    if seq_end_by_interpretation(ctx, q):
+      continue
     f = ix.func(q)
     ctx.unit(f.module)
     found = False
